@@ -169,15 +169,16 @@ PROPS = {
     "C05": {
         "module": "model",
         "level": "exploration",
-        "rule": COMMON_MS_RULE + "seeded histories; after EVERY call: are_equal_ over all pairs of ids = reference union-find (seeded from the last closed state plus the equate_ calls since), root_ idempotent and inside the class, id counters; while no equate_ since the last close: an inserted tuple is reported by the point query and exactly once by the iterator, define_ returns an existing value (no new id) or the next dense id, new_ returns the next dense id, new_<enum>(case) is found by <enum>_cases. Non-trivial = >= 1 close or cancelled close in the history; distinct = distinct final dumps per program.",
+        "rule": COMMON_MS_RULE + "seeded histories; after EVERY call: are_equal_ over all pairs of ids = reference union-find (seeded from the last closed state plus the equate_ calls since), root_ idempotent and inside the class, id counters; while no equate_ since the last close: an inserted tuple is reported by the point query and exactly once by the iterator, define_ returns an existing value (no new id) or the next dense id, new_ returns the next dense id, new_<enum>(case) is found by <enum>_cases. Since session 3 the corpus of this check also holds the two model-declaration families (member predicates over global types; a member type with morphism applications): their histories come from the C17 generator, every second one with a tail of assertions that no close follows; new_<t>(parent) must make the element a member at once; tuples inherited in the last closed state are part of the reference. Non-trivial = >= 1 close or cancelled close in the history; distinct = distinct final dumps per program.",
         "real": MS_REAL,
         "stub": ["none: compiler, rustc, runtime and generated code are the real ones; the reference (naive chase / rule checker / union-find) is the oracle, not a stub of the system"],
-        "assumptions": ["for multi-valued function graphs before a close, evaluation must return one of the asserted values (nothing stronger is promised)"],
+        "assumptions": ["for multi-valued function graphs before a close, evaluation must return one of the asserted values (nothing stronger is promised)",
+                        "model programs: three consequences of the C17 defects are known findings with classes of their own (KF-C05-1/2/3); wrong or missing tuples stay live"],
     },
     "C06": {
         "module": "model",
         "level": "exploration",
-        "rule": COMMON_MS_RULE + "programs of the corpus without `!` in any then-statement (incl. 'tempting' programs the compiler must reject: a then-atom mentioning a term no earlier statement mentions); every close of a seeded history must finish within 2*(C + sum_r C^arity(r)) + 4 iterations (C = classes before the close), must not increase the number of classes of any sort and must not allocate ids. Non-trivial = a completed close with >= 2 iterations; distinct = distinct final dumps per program.",
+        "rule": COMMON_MS_RULE + "programs of the corpus without `!` in any then-statement (incl. 'tempting' programs the compiler must reject: a then-atom mentioning a term no earlier statement mentions); every close of a seeded history must finish within 2*(C + sum_r C^arity(r)) + 4 iterations (C = classes before the close), must not increase the number of classes of any sort and must not allocate ids. The two model-declaration families are surjective and take part (histories from the C17 generator). Non-trivial = a completed close with >= 2 iterations; distinct = distinct final dumps per program.",
         "real": MS_REAL,
         "stub": ["none: compiler, rustc, runtime and generated code are the real ones; the reference (naive chase / rule checker / union-find) is the oracle, not a stub of the system"],
         "assumptions": ["liveness is stated in iterations (polls of close_until), never in wall-clock time"],
